@@ -390,7 +390,7 @@ func runC01(c *Ctx) {
 				for _, h := range withAnon(g) {
 					for _, ci := range callsIn(h) {
 						if u, ok := ci.Common().Value.(*ssa.UnOp); ok && !ci.Common().IsInvoke() {
-							if fl := fieldOf(u.X); fl != nil && fl.Name() == "handler" {
+							if fl := fieldOf(u.X); fl != nil && vname(fl) == "handler" {
 								found = true
 							}
 						}
@@ -403,7 +403,7 @@ func runC01(c *Ctx) {
 					continue
 				}
 				if u, ok := ci.Common().Value.(*ssa.UnOp); ok && !ci.Common().IsInvoke() {
-					if fl := fieldOf(u.X); fl != nil && fl.Name() == "handler" {
+					if fl := fieldOf(u.X); fl != nil && vname(fl) == "handler" {
 						nHandler++
 					}
 				}
